@@ -107,6 +107,11 @@ def instances(tier, seed):
             s.objective = [at_tf(X(0) * X(1))]
             add(spec=fam.with_horizon(s, h), cfg=Cfg(method, N=N, M=M, intg=intg or 'rk', grid=g, degree=degree or 4, scheme=scheme or 'radau'))
             n += 1
+    # DAE under collocation with rational tables on a non-uniform grid: the algebraic interpolant
+    for g in (fam.G_GEO_LOC, fam.G_UNI):
+        s = copy.deepcopy(fam.dae_core()[0])
+        s.objective = [at_tf(X(0) * X(1))]
+        add(spec=fam.with_horizon(s, Hsym[0]), cfg=Cfg('DC', N=2, M=2, grid=g, degree=2, scheme='radau'))
     # SingleShooting with sub-steps (one control interval: the nesting stays shallow)
     for intg in ('rk', 'expl_euler'):
         s = copy.deepcopy(fam.ode_core()[0])
@@ -132,6 +137,8 @@ def run(item):
         tr_, xr_ = st.sample(st.x, grid='integrator', refine=r)
         plan['tref'] = len(outs); outs.append(tr_)
         plan['xref'] = len(outs); outs.append(xr_)
+        if spec.nz:
+            plan['zref'] = len(outs); outs.append(st.sample(st.z, grid='integrator', refine=r)[1])
         # sampler with the interval lookup stubbed per explored step
         tsym = ca.MX.sym('tq')
         plan['sampler'] = {}
@@ -255,6 +262,17 @@ def run(item):
                     w_tau = lag_weights(nodes, tb.tau[j] * r)
                     P('through-helper', 'P(tau_%d h)[step %d,%d]' % (j, i, s), {dd: sum((ys[dd][m] * cst[dd](w_tau[m]) for m in range(1, d + 1)), ys[dd][0] * cst[dd](w_tau[0])) for dd in doms},
                       {dd: trs[dd].Xr[i * cfg.degree + j][s] for dd in doms})
+    # 5b. algebraic variables: the refined samples lie on the polynomial (degree d-1) through the collocation values
+    if spec.nz and cfg.method == 'DC' and fam.rational_tables(cfg.degree, cfg.scheme) and 'zref' in plan:
+        zref = {dd: ([wrapd(dd, v) for v in ex[dd][plan['zref']]] if dd != 'z' else list(fq[plan['zref']])) for dd in doms}
+        dgr = cfg.degree
+        for i in range(nsteps):
+            for j in range(r):
+                wz = lag_weights(tb.tau, Fr(j, r))
+                for a_ in range(spec.nz):
+                    P('z-through-roots', 'zref[step %d,%d][%d] == interpolant of the collocation values' % (i, j, a_),
+                      {dd: zref[dd][(i * r + j) * spec.nz + a_] for dd in doms},
+                      {dd: sum((trs[dd].Zr[i * dgr + q][a_] * cst[dd](wz[q]) for q in range(1, dgr)), trs[dd].Zr[i * dgr][a_] * cst[dd](wz[0])) for dd in doms})
     # twin (vacuity): the end-value identity must tell apart a propagation over twice the step
     twins_ok = twins_bad = 0
     if cfg.method != 'DC':
